@@ -404,8 +404,34 @@ class Evaluator:
         cur = self.eval(s.target, st)
         rhs = self.eval(s.value, st)
         v = self.binop(s.op, cur, rhs, st, s)
-        self.assign(s.target, v, st, s, aug=True)
+        self.inplace_update(s.target, cur, v, st, s)
         return True
+
+    def inplace_update(self, target, cur: Val, v: Val, st: State, node):
+        """`target op= rhs` / `ufunc(..., out=target)`: the object bound to `target` is modified in place when it is an array"""
+        view = getattr(cur, 'view_of', None) if isinstance(target, ast.Name) else None
+        if view is not None:
+            parent_expr, idx = view
+            parent = self.eval(parent_expr, st)
+            if isinstance(parent, Term) and parent.kind == 'ndarray':
+                parent = term_as_num(parent, True, 'ndarray')
+            if isinstance(parent, Num) and parent.length is not None:
+                # the name is a slice view of `parent`: the update lands in the parent
+                self.emit('store', st, node, target=ast.unparse(parent_expr), base=parent, index=idx, value=v, aug=True, whole=False, target_expr=parent_expr,
+                          through_view=target.id)
+                newp = Term('stored', (parent,), uid=fresh_serial(), kind=getattr(parent, 'kind', 'unknown'))
+                newp = term_as_num(newp, True, getattr(parent, 'kind', None))
+                pre = self._whole_store(parent, idx, v)
+                self.rebind(parent_expr, pre if pre is not None else newp, st)
+                st.env[target.id] = v
+                return
+        if isinstance(target, ast.Name) and isinstance(cur, (Term, Num)) and not (isinstance(cur, Num) and cur.length is None and not any(
+                isinstance(t_, Term) for t_ in walk_vals(cur))) and any(isinstance(t_, Term) and t_.head in ('method:reshape', 'lib:numpy.reshape', 'T', 'lib:numpy.split',
+                                                                                                 'lib:numpy.array_split', 'lib:numpy.lib.stride_tricks.as_strided')
+                                                         for t_ in walk_vals(cur)):
+            # possibly a view (a row of a reshaped array, ...) updated in place: the parent changes in a way this evaluator does not follow
+            self.emit('store', st, node, target=target.id, base=cur, index=None, value=v, aug=True, whole=True, target_expr=target, view_unknown=True)
+        self.assign(target, v, st, node, aug=True)
 
     def assign(self, t, v: Val, st: State, node, aug=False):
         if isinstance(t, ast.Name):
@@ -553,6 +579,29 @@ class Evaluator:
 
     def assigned_in(self, stmts) -> Tuple[set, list]:
         names, stores = set(), []
+        # names bound (in this block) to a basic slice of an array are views of it: updating them in place updates the parent
+        views = {}
+        for s in stmts:
+            for n in ast.walk(s):
+                if isinstance(n, ast.Assign) and len(n.targets) == 1 and isinstance(n.targets[0], ast.Name) and isinstance(n.value, ast.Subscript) \
+                        and isinstance(n.value.slice, ast.Slice) and isinstance(n.value.value, (ast.Name, ast.Attribute)):
+                    views[n.targets[0].id] = n.value.value
+
+        def add_store(expr):
+            if ast.unparse(expr) not in {ast.unparse(x_) for x_ in stores}:
+                stores.append(expr)
+        for s in stmts:
+            for n in ast.walk(s):
+                if isinstance(n, ast.AugAssign) and isinstance(n.target, ast.Name) and n.target.id in views:
+                    add_store(views[n.target.id])
+                if isinstance(n, ast.Call):
+                    for k_ in n.keywords:
+                        if k_.arg == 'out' and isinstance(k_.value, ast.Name):
+                            names.add(k_.value.id)
+                            if k_.value.id in views:
+                                add_store(views[k_.value.id])
+                        elif k_.arg == 'out' and isinstance(k_.value, ast.Subscript):
+                            add_store(k_.value.value)
         for s in stmts:
             for n in ast.walk(s):
                 if isinstance(n, (ast.Assign, ast.AugAssign, ast.AnnAssign, ast.For)):
@@ -626,7 +675,11 @@ class Evaluator:
         lsym = sym.A('sym', f"${var or 'j'}#{lid}")
         ctx = LoopCtx(lid, 'iter', var, lsym, C(0), None, s)
         elem: Val
-        if isinstance(it, Term) and it.head == 'range':
+        if isinstance(it, Term) and it.head == 'range' and len(it.args) == 4:
+            lo, hi, step, cnt = it.args
+            ctx.kind, ctx.lo, ctx.hi = 'range', C(0), cnt.r
+            elem = Num(lo.r + step.r * lsym)
+        elif isinstance(it, Term) and it.head == 'range':
             lo, hi = it.args
             ctx.kind, ctx.lo, ctx.hi = 'range', lo.r, hi.r
             elem = Num(lsym)
@@ -1108,6 +1161,10 @@ class Evaluator:
             elem = Tup([self.element_of(a, csym) for a in it.args])
             lens = [a.length for a in it.args if isinstance(a, Num) and a.length is not None]
             length = lens[0] if lens else None
+        elif isinstance(it, Term) and it.head == 'range' and len(it.args) == 4:
+            lo, hi, step, cnt = it.args
+            elem = Num(lo.r + step.r * csym)
+            length = cnt.r
         elif isinstance(it, Term) and it.head == 'range':
             lo, hi = it.args
             elem = Num(csym + lo.r)
@@ -1393,7 +1450,12 @@ class Evaluator:
     # ---- subscripts
     def eval_Subscript(self, e, st):
         base = self.eval(e.value, st)
-        return self.subscript(base, e.slice, st, e)
+        out = self.subscript(base, e.slice, st, e)
+        if isinstance(e.slice, ast.Slice) and isinstance(out, Num) and out.length is not None and (isinstance(base, Num) or getattr(base, 'kind', '') == 'ndarray') \
+                and isinstance(e.value, (ast.Name, ast.Attribute)):
+            # a basic slice of an ndarray is a view: an in-place update of it writes into the parent array
+            out.view_of = (e.value, self.eval_Slice(e.slice, st))
+        return out
 
     def eval_Slice(self, e, st):
         return Term('slice', (self.eval(e.lower, st) if e.lower else NONE, self.eval(e.upper, st) if e.upper else NONE,
@@ -1514,6 +1576,22 @@ class Evaluator:
             else:
                 kw[k.arg] = v
         res = self.call(fn, pos, kw, star_kw, st, e)
+        out_kw = [k for k in e.keywords if k.arg == 'out']
+        if out_kw and isinstance(out_kw[0].value, (ast.Name, ast.Attribute, ast.Subscript)) and isinstance(fn, Fn) and fn.fkind == 'lib' \
+                and str(fn.ref).startswith('numpy.'):
+            # numpy.f(..., out=a): a is overwritten in place with the result
+            tgt = out_kw[0].value
+            if isinstance(res, Term) and res.head.startswith('lib:numpy.'):
+                res = Term(res.head, res.args, [(k_, v_) for k_, v_ in res.kwargs if k_ != 'out'], res.kind, res.uid, res.node)
+                h_ = LIB_HANDLERS.get(str(fn.ref))
+                if h_ is not None:
+                    try:
+                        r2 = h_(self, pos, {k_: v_ for k_, v_ in kw.items() if k_ != 'out'}, st, e)
+                        if r2 is not None:
+                            res = r2
+                    except Unknown:
+                        pass
+            self.inplace_update(tgt, kw['out'], res, st, e) if isinstance(tgt, ast.Name) else self.assign(tgt, res, st, e, aug=True)
         if isinstance(e.func, ast.Attribute) and e.func.attr in MUTATING_METHODS and isinstance(fn, Fn) and fn.fkind == 'builtin':
             recv = fn.self_val
             if not isinstance(recv, Obj) and recv is not None:
@@ -2207,6 +2285,14 @@ def b_range(ev, pos, kw, st, node):
         return Term('range', (nums[0], nums[1]))
     if len(nums) == 3 and nums[2].is_const() and nums[2].const() == 1:
         return Term('range', (nums[0], nums[1]))
+    if len(nums) == 3 and not (nums[2].is_const() and nums[2].const() == 0):
+        # range(lo, hi, step) with an exactly divisible extent: count = (hi - lo) / step values lo + step*j
+        try:
+            cnt = (nums[1].r - nums[0].r) / nums[2].r
+        except Exception:
+            return None
+        if cnt.d.is_const() if hasattr(cnt.d, 'is_const') else list(cnt.d.t.keys()) == [()]:
+            return Term('range', (nums[0], nums[1], nums[2], Num(cnt)))
     return None
 
 
